@@ -6,6 +6,7 @@
 From Coq Require Import List Bool Arith.
 Import ListNotations.
 From MV Require Import Static.Attrs Static.AttrsP.
+From MV Require Gen.InOrOutSet Static.SetsTie.
 
 Theorem C12_difference : forall x a b, mem x (isub a b) = mem x a && negb (mem x b).
 Proof. exact mem_isub. Qed.
@@ -46,3 +47,17 @@ Example C12_nonvacuous :
   parse_attrs (mkDesc (Some [1; 2; 3]) (Some [2]) None None (Some [3]) false) AHybrid
   = POk (Fin [1; 3], Fin [2], Fin [1; 2], Fin [3]).
 Proof. vm_compute. reflexivity. Qed.
+
+(* the set algebra and parse_set_triple the theorems above speak about ARE what mosaik/in_or_out_set.py computes: the
+   functions generated from the source (with Python's operator dispatch between frozenset and OutSet) equal the
+   specification on all arguments *)
+Theorem C12_generated_set_algebra_is_the_model :
+  (forall a b, MV.Gen.InOrOutSet.py_sub a b = isub a b) /\ (forall a b, MV.Gen.InOrOutSet.py_and a b = iand a b) /\
+  (forall a b, MV.Gen.InOrOutSet.py_or a b = ior a b) /\ (forall a b, MV.Gen.InOrOutSet.py_eq a b = seqb a b) /\
+  (forall l x, MV.Gen.InOrOutSet.OutSet___contains__ l x = mem x (Cof l)) /\
+  (forall u a b, MV.Gen.InOrOutSet.parse_set_triple u a b = MV.Static.Attrs.parse_set_triple u a b).
+Proof.
+  split; [exact MV.Static.SetsTie.tie_sub|]. split; [exact MV.Static.SetsTie.tie_and|]. split; [exact MV.Static.SetsTie.tie_or|].
+  split; [exact MV.Static.SetsTie.tie_eq|]. split; [exact MV.Static.SetsTie.tie_contains|exact MV.Static.SetsTie.tie_parse_set_triple].
+Qed.
+Print Assumptions C12_generated_set_algebra_is_the_model.
